@@ -509,8 +509,8 @@ pub fn run(ctx: &Ctx) -> Outcome {
     if let Some(p) = &ctx.replay {
         return replay(p, out);
     }
-    let depth = if ctx.quick() { 2 } else { 3 };
-    let cap = if ctx.quick() { 64 } else { 4096 };
+    let depth = if ctx.quick() { 3 } else { 4 };
+    let cap = if ctx.quick() { 4096 } else { 65536 };
     let vals = corpus::values(depth);
     let distinct = Mutex::new(HashSet::<u64>::new());
     let res = par_map(&vals, ctx.threads, |_, v| {
